@@ -135,16 +135,26 @@ def run_case(case: Dict[str, Any]) -> Dict[str, Any]:
             reqs.append((a, {kk: vv for kk, vv in k.items() if kk in ("dtype",)}))
             return real_randint(*a, **k)
 
-        x = torch.full((5, 40), 1.0 + 2.0 ** -(M + 2), dtype=torch.float32)  # exact 1/4 position
-        torch.manual_seed(0)
-        with mock.patch.object(torch, "randint", spy):
-            q = fmt.quantise(x)
-        ok = len(reqs) == 1 and tuple(reqs[0][0][2]) == (5, 40) and reqs[0][0][0] == 0 and reqs[0][0][1] == 2**nbits
-        if not ok:
-            viol.append({"key": "indep|draw_request", "msg": f"E{E}M{M}: randint requests {reqs!r}"})
-        if 23 - M >= 3 and len(torch.unique(q)) < 2:
-            viol.append({"key": "indep|all_elements_same_draw", "msg": f"E{E}M{M}: 200 equal inputs at 1/4 position all rounded to {q[0,0].item()}"})
-        return {"violations": viol, "steps": 200, "n_states": 200, "outcome": "indep"}
+        base = torch.full((5, 40), 1.0 + 2.0 ** -(M + 2), dtype=torch.float32)  # exact 1/4 position
+        layouts = {
+            "contiguous": base,
+            "transposed": base.t().contiguous().t(),
+            "expanded_rows": base[:1].expand(5, 40),  # stride-0 views: still one element = one draw
+            "expanded_cols": base[:, :1].expand(5, 40),
+            "expanded_scalar": base[0, 0].expand(5, 40),
+            "sliced": torch.full((5, 80), 1.0 + 2.0 ** -(M + 2), dtype=torch.float32)[:, ::2],
+        }
+        for lname, x in layouts.items():
+            reqs.clear()
+            torch.manual_seed(0)
+            with mock.patch.object(torch, "randint", spy):
+                q = fmt.quantise(x)
+            ok = len(reqs) == 1 and tuple(reqs[0][0][2]) == (5, 40) and reqs[0][0][0] == 0 and reqs[0][0][1] == 2**nbits
+            if not ok:
+                viol.append({"key": f"indep|draw_request|{lname}", "msg": f"E{E}M{M}: randint requests {reqs!r}"})
+            elif 23 - M >= 3 and len(torch.unique(q)) < 2:
+                viol.append({"key": f"indep|elements_share_a_draw|{lname}", "msg": f"E{E}M{M}: equal inputs at 1/4 position: all 200 rounded the same way"})
+        return {"violations": viol[:3], "steps": 1200, "n_states": 1200, "outcome": "indep"}
 
     cap = case.get("cap") or (600 if case["tier"] == "quick" else 4000)
     # keep (inputs x draws) bounded
